@@ -215,6 +215,14 @@ func ServiceListUpdateEventsFromChanges(tx ReadTxn, changes Changes) ([]stream.E
 
 		kindName := changeObject(change).(*KindServiceName)
 
+		// The service list is the list of typical services (that is what the
+		// snapshot contains). Rows of other kinds - proxies, gateways, the
+		// "connect-enabled" and "destination" markers - must not add or, worse,
+		// remove a name from it.
+		if kindName.Kind != structs.ServiceKindTypical {
+			continue
+		}
+
 		// TODO(peering): make this peer-aware.
 		payload := &EventPayloadServiceListUpdate{
 			Name:           kindName.Service.Name,
